@@ -28,9 +28,11 @@ def check(ctx, R):
     _blob(ctx, R, T)
     _keyfile(ctx, R, T)
     _keygen(ctx, R, T)
-    _sign_cryptography(ctx, R, T)
-    _sign_pythonrsa(ctx, R, T)
-    _sign_pycryptodome(ctx, R, T)
+    for rule, fn in (("SIGN-cryptography", _sign_cryptography), ("SIGN-pythonrsa", _sign_pythonrsa), ("SIGN-pycryptodome", _sign_pycryptodome)):
+        try:
+            fn(ctx, R, T)
+        except _NoValue as e:
+            R.fail(rule, "%s|returns-nothing" % e.func.qualname, "%s has no `return <value>`: the caller gets None instead of a signature / key" % e.func.qualname, e.func.loc())
     _stateless(ctx, R)
     R.assume("cryptography / rsa / pycryptodome implement RSASSA-PKCS1-v1_5 as documented; adbd verifies RSA_verify(NID_sha1, token, 20, sig)")
     R.undecided("the arithmetic inside the crypto libraries is outside the analysed source")
@@ -152,9 +154,17 @@ def _sign_method(ctx, clsq):
     return cls, f
 
 
+class _NoValue(Exception):
+    def __init__(self, func):
+        Exception.__init__(self, func.qualname)
+        self.func = func
+
+
 def _one_return(ctx, f):
     g = ctx.cfg(f)
     rets = [n for n in g.live_nodes() if n.kind == "stmt" and isinstance(n.ast, ast.Return)]
+    if not [n for n in rets if n.ast.value is not None]:
+        raise _NoValue(f)
     if len(rets) != 1:
         raise AnalysisError("SIGN", "%s has %d returns" % (f.qualname, len(rets)))
     return rets[0]
